@@ -389,3 +389,29 @@ META["C09"] = dict(
     },
     assumptions=["histories that deliberately mutate the parser (add_argument, set_defaults, link_arguments) are not generated"],
 )
+
+META["C14"] = dict(
+    title="A class_path is checked against the declared type and built from its config",
+    level="exploration",
+    level_text="Ground-truth + call-log monitor on a class family written to a real source file (base, subclasses adding / "
+    "overriding parameters, subclass behind a private intermediate, **kwargs forwarding, required parameter, unresolved **kw, "
+    "abstract base + concrete, unrelated class, holder with nested / List / Dict / Union class parameters, factory functions): "
+    "specs of 10 kinds (valid, wrong class, non-class imports, callable returning subclass, unknown / ill-typed / sibling's / "
+    "missing required init_args, non-str class_path) through object, argv and config text against Base, Optional[Base] and "
+    "Union[Base,int]; instantiate_classes judged by the constructor log (exact type, once, configured init_args + dict_kwargs, "
+    "children first and as objects); six short notations compared with the explicit form; class changes between sources.",
+    level_note="Trusted: issubclass / inspect.signature of the generated family as ground truth; one family, randomised specs.",
+    shards=g(4, 16),
+    budget=g(40, 240),
+    technique="ground-truth accept/reject oracle + constructor call-log monitor + short-vs-explicit differential on generated class families",
+    rule="a case is (spec kind, declared hint, channel) / (short form, class, init_args names) / (nested shape) / (class-change argv); "
+    "distinct by hash; all are non-trivial (a decision or an instantiation is judged).",
+    gates={
+        "mon.spec_decisions": g(3000, 30000), "mon.instantiations": g(500, 5000), "mon.short_vs_explicit": g(2000, 20000),
+        "mon.nested": g(300, 3000), "mon.class_change": g(300, 3000),
+        "st.spec.valid-explicit.accepted": g(200, 2000), "st.spec.wrong-class.rejected": g(200, 2000), "st.spec.non-class-import.rejected": g(200, 2000),
+        "st.spec.unknown-init-arg.rejected": g(100, 1000), "st.spec.ill-typed-init-arg.rejected": g(200, 2000),
+        "st.spec.callable-returning-subclass.accepted": g(200, 2000), "st.spec.required-init-arg-missing.rejected": g(200, 2000),
+    },
+    assumptions=["SubB deliberately records twice (Base.__init__ via super): constructions are counted by distinct object identity"],
+)
